@@ -51,6 +51,10 @@ def contents(rng):
     b.pop('Drawdown Parameter', None)
     b.update({'Reservoir Model': 5, 'Reservoir Output File Name': '/nonexistent/profile.txt'})
     pool['badfile'] = geo.params_to_text(b)
+    # a data file given by a relative name (the shipped example 5): every entry point resolves it the same way, whatever happens to lie beside the input file
+    ex5 = [f for f in geo.example_files() if f.name == 'example5.txt']
+    if ex5:
+        pool['relative-data-file'] = geo.example_text(ex5[0])
     return pool
 
 
@@ -65,6 +69,10 @@ def cli_run(job):
         (d / sub).mkdir(parents=True, exist_ok=True)
     inp = d / 'elsewhere' / 'input file.txt'
     inp.write_text(text)
+    if cid == 'relative-data-file':
+        # a different file of the same relative name beside the command line's input (another temperature history): it must not be picked up
+        (d / 'elsewhere' / 'Examples').mkdir(exist_ok=True)
+        (d / 'elsewhere' / 'Examples' / 'ReservoirOutput.txt').write_text(''.join(f'{t / 4}\t,\t{140 - t / 8}\n' for t in range(0, 121)))
     cwd = {'start': d / 'start', 'sub': d / 'start' / 'sub', 'root': Path('/')}[start]
     out_arg = {'default': None, 'relative': 'r.out', 'relative-subdir': 'out/res.out', 'absolute': str(d / 'abs' / 'x.out'),
                'dir-contains-name': 'a.out.d/a.out', 'absolute-dir-contains-name': str(d / 'abs' / 'b.out.d' / 'b.out'), 'no-suffix': 'report'}[shape]
@@ -110,7 +118,7 @@ def evaluate(chk: core.Check, n_cases):
     combos = [(c, s, st) for c in pool for s in SHAPES for st in ('start', 'sub', 'root')]
     rng.shuffle(combos)
     # every shape at least once with a succeeding and a failing input
-    must = [(c, s, 'start') for s in SHAPES for c in ('ok0', 'badrange')] + [('badfile', 'default', 'start'), ('badfile', 'absolute', 'sub'), ('badcalc', 'relative', 'start'), ('mpf-b', 'relative', 'start'), ('mpf-a', 'absolute', 'sub')]
+    must = [(c, s, 'start') for s in SHAPES for c in ('ok0', 'badrange')] + [('relative-data-file', 'relative', 'start'), ('relative-data-file', 'absolute', 'sub'), ('badfile', 'default', 'start'), ('badfile', 'absolute', 'sub'), ('badcalc', 'relative', 'start'), ('mpf-b', 'relative', 'start'), ('mpf-a', 'absolute', 'sub')]
     for (c, s, st) in (must + combos)[:n_cases]:
         jobs.append((str(Path(chk.scratch) / f'cli{k}'), c, pool[c], s, st))
         k += 1
